@@ -42,6 +42,26 @@ def inList (lhs : Expr) (elems : List Nat) : Expr :=
     After the repair of the empty case this is the literal 0 as well: the test is unsatisfiable. -/
 def inRandsz : Expr := .reset (.lit 0 false 1)
 
+/-- `ConstraintUniqueVecModel._mkVecNotEq`: two vectors differ in some position
+    (`Or(ne_i, …Or(ne_1, ne_0))`); `none` for empty vectors -/
+def vecNe (a b : List Nat) : Option Expr :=
+  (a.zip b).foldl (fun acc p =>
+    let ne : Expr := .reset (.bin .ne (.fld p.1) (.fld p.2))
+    match acc with
+    | none => some ne
+    | some r => some (.bin .or ne r)) none
+
+/-- `ConstraintUniqueVecModel.build`: every pair of vectors differs (`And` over the pairs, in order) -/
+def uniqueVec (vs : List (List Nat)) : Option Expr :=
+  let rec pairs : List (List Nat) → List (List Nat × List Nat)
+    | [] => []
+    | v :: rest => rest.map (fun w => (v, w)) ++ pairs rest
+  (pairs vs).foldl (fun acc p =>
+    match acc, vecNe p.1 p.2 with
+    | none, x => x
+    | some a, some x => some (.bin .and a x)
+    | some a, none => some a) none
+
 /-- a flat scope holding the given statements (`ConstraintInlineScopeModel`) -/
 def scopeOf (ss : List Stmt) : Stmt := ss.foldr .cons .nil
 
